@@ -97,6 +97,7 @@ func faultOpts(prop string, thorough bool) (GenOpts, faultEmphasis) {
 	case "C17":
 		em.Kinds = []stopKind{stopInvalidEvent}
 		em.MaxFaults = 2
+		em.GateAccepted = true
 	}
 	if thorough {
 		o.MaxUnits = 7
@@ -389,6 +390,12 @@ func RunCase(t *testing.T, spec CaseSpec) *CaseResult {
 	case "C17":
 		add(checkC17(r))
 		for _, a := range r.Results {
+			if a.Plan.Stream.GateAccepted {
+				if hasCause(a, "invalid-event") {
+					res.Stats.probe("gate-accepted-bare-header-delivered")
+				}
+				break
+			}
 			if hasCause(a, "invalid-event") {
 				n := len(a.Plan.Stream.Invalid)
 				if n >= 65536 {
